@@ -15,6 +15,7 @@ case "${1:-}" in
     sed -i "s#\"/repo/Cargo.lock\"#\"$R/Cargo.lock\"#" "$V/tools/check.py"
     sed -i "s#^REPO = \"/repo\"#REPO = \"$R\"#" "$V/tools/translate.py"
     sed -i "s#\"/repo/flussab-btor2#\"$R/flussab-btor2#" "$V/tools/streams/docs.py"
+    sed -i "s#\"/repo/flussab-btor2#\"$R/flussab-btor2#" "$V/tools/streams/pam.py"
     grep -rn '"/repo' "$V/tools" "$V/harness/Cargo.toml" | grep -v "print\|replay\|#" | head
     ;;
   run)
@@ -31,6 +32,7 @@ case "${1:-}" in
     sed -i "s#\"/repo/Cargo.lock\"#\"$R/Cargo.lock\"#" "$V/tools/check.py"
     sed -i "s#^REPO = \"/repo\"#REPO = \"$R\"#" "$V/tools/translate.py"
     sed -i "s#\"/repo/flussab-btor2#\"$R/flussab-btor2#" "$V/tools/streams/docs.py"
+    sed -i "s#\"/repo/flussab-btor2#\"$R/flussab-btor2#" "$V/tools/streams/pam.py"
     rsync -a --exclude target /repo/ "$R"/
     ;;
   clean) rm -rf "$V" "$R" ;;
